@@ -212,14 +212,14 @@ static std::vector<Rows> orthogonal_family(int n)
 		fam.push_back(Rv);
 	}
 	// products of Givens rotations
-	const double ang[] = {M_PI / 6, M_PI / 4, M_PI / 3, 1.0};
-	for(int v = 0; v < 4 && n > 1; v++)
+	const double ang[] = {M_PI / 6, M_PI / 4, M_PI / 3, 1.0, 0.1, 2.5, M_PI / 2 - 1e-3, 1e-3};
+	for(int v = 0; v < (mc::thorough() ? 8 : 4) && n > 1; v++)
 	{
 		Rows Q = I;
 		for(int i = 0; i + 1 < n; i++)
 		{
 			Rows G	   = I;
-			double th  = ang[(i + v) % 4];
+			double th  = ang[(i + v) % (mc::thorough() ? 8 : 4)];
 			int p = i, r = (v % 2) ? n - 1 : i + 1;
 			if(p == r) continue;
 			G[p][p] = std::cos(th); G[r][r] = std::cos(th); G[p][r] = -std::sin(th); G[r][p] = std::sin(th);
@@ -235,11 +235,11 @@ static std::vector<Rows> orthogonal_family(int n)
 		}
 	}
 	// Householder reflectors of integer vectors
-	for(int v = 0; v < 2 && n > 1; v++)
+	for(int v = 0; v < (mc::thorough() ? 5 : 2) && n > 1; v++)
 	{
 		std::vector<double> w(n);
 		ld ww = 0;
-		for(int i = 0; i < n; i++) { w[i] = v ? ((i % 3) - 1) + (i == 0) * 2 : i + 1; ww += (ld)w[i] * w[i]; }
+		for(int i = 0; i < n; i++) { w[i] = v == 0 ? i + 1 : v == 1 ? ((i % 3) - 1) + (i == 0) * 2 : v == 2 ? (i % 2 ? -1 : 2) : v == 3 ? (i == n - 1 ? 5 : (i == 0 ? 1 : 0)) : 1; ww += (ld)w[i] * w[i]; }
 		Rows Hh = I;
 		for(int i = 0; i < n; i++)
 			for(int j = 0; j < n; j++) Hh[i][j] = (double)((i == j) - 2 * (ld)w[i] * w[j] / ww);
@@ -307,7 +307,9 @@ int main(int argc, char** argv)
 		unit += (idx >> 5) + 1;
 	}
 	// eigen families
-	const std::vector<std::vector<double>> ratios = {{0.5}, {0.8}, {0.1}, {0.3, 0.7}};
+	std::vector<std::vector<double>> ratios = {{0.5}, {0.8}, {0.1}, {0.3, 0.7}};
+	if(mc::thorough())
+		for(auto r : std::vector<std::vector<double>>{{0.2}, {0.3}, {0.4}, {0.6}, {0.7}, {0.75}, {0.8, 0.1}, {0.1, 0.8}, {0.5, 0.8, 0.2}, {0.65, 0.35}}) ratios.push_back(r);
 	for(int n = 1; n <= nmax; n++)
 	{
 		auto fam = orthogonal_family(n);
